@@ -99,23 +99,69 @@ Fixpoint phase_run (rid : id) (ph : phase) (evs : list ev) : option phase :=
 Definition sched_ok (rid : id) (evs : list ev) : bool :=
   match phase_run rid PhPosted evs with Some PhDone => true | _ => false end.
 
-(** The same WITHOUT "not after the request's life is over": a late answer is
-    allowed once the request is done (used to state the full-strength claim
-    that the code does not meet). *)
-Definition phase_step_late (rid : id) (ph : phase) (e : ev) : option phase :=
-  match e, ph with
-  | ESse (Some m), PhDone => if is_terminal rid m || negb (same_key rid m) then Some PhDone else None
-  | _, _ => phase_step rid ph e
+(** The same WITHOUT "not after the request's life is over": the server's one
+    answer on the event stream may also come LATE, after the request has had
+    its terminal message (the synthesised timeout error, the error for a
+    failed POST) — the full-strength environment.  "At most once" is carried
+    through the whole life: the state remembers whether the server has already
+    given its answer (on the stream, or in the body of the POST reply); once it
+    has, no further answer appears on the stream. *)
+Definition late_state := (phase * bool)%type.
+
+(** the POST reply carries the answer (a 202 is only an acknowledgement) *)
+Definition post_answers (rid : id) (p : post_res) : bool :=
+  match p with
+  | PStatus code (BMsg m) => negb (code =? 202) && is_terminal rid m
+  | _ => false
   end.
 
-Fixpoint phase_run_late (rid : id) (ph : phase) (evs : list ev) : option phase :=
-  match evs with
-  | [] => Some ph
-  | e :: r => match phase_step_late rid ph e with Some ph' => phase_run_late rid ph' r | None => None end
+Definition late_step (rid : id) (s : late_state) (e : ev) : option late_state :=
+  match e with
+  | ESse (Some m) =>
+      if same_key rid m then
+        (if is_terminal rid m && negb (snd s) then
+           match fst s with
+           | PhPosted => Some (PhAnswered, true)
+           | PhAcked => Some (PhAnsweredAcked, true)
+           | PhDone => Some (PhDone, true)                  (* the late answer *)
+           | _ => None
+           end
+         else None)
+      else Some s
+  | EPost p =>
+      match phase_step rid (fst s) e with
+      | Some ph' => Some (ph', snd s || post_answers rid p)
+      | None => None
+      end
+  | _ => match phase_step rid (fst s) e with Some ph' => Some (ph', snd s) | None => None end
   end.
+
+Fixpoint late_run (rid : id) (s : late_state) (evs : list ev) : option late_state :=
+  match evs with
+  | [] => Some s
+  | e :: r => match late_step rid s e with Some s' => late_run rid s' r | None => None end
+  end.
+
+Definition late_init : late_state := (PhPosted, false).
 
 Definition sched_ok_late (rid : id) (evs : list ev) : bool :=
-  match phase_run_late rid PhPosted evs with Some PhDone => true | _ => false end.
+  match late_run rid late_init evs with Some (PhDone, _) => true | _ => false end.
+
+(** What is due on the read stream FROM THE EVENT STREAM during such a life:
+    every valid message, in stream order — except the late answer: the request
+    has had its terminal message, a second one must not be delivered. *)
+Definition is_done (ph : phase) : bool := match ph with PhDone => true | _ => false end.
+
+Fixpoint stream_due (rid : id) (s : late_state) (evs : list ev) : list msg :=
+  match evs with
+  | [] => []
+  | e :: r =>
+      match e with
+      | ESse (Some m) => if same_key rid m && is_done (fst s) then [] else [m]
+      | _ => []
+      end ++
+      match late_step rid s e with Some s' => stream_due rid s' r | None => [] end
+  end.
 
 (* ------------------------------------------------------------------ *)
 (** * Server messages on the event stream                              *)
